@@ -57,7 +57,8 @@ SaveOut saveNif(NifFile& nif, const SaveSpec& spec) {
 	SimOBuf ob;
 	ob.failAfter = spec.failAfter;
 	ob.keepLog = spec.keepLog;
-	ob.seekable = !(spec.nonSeekable || simPipeSaves());
+	bool runPipe = simPipeSaves() && (!simPipeAlternate() || (simSaveCounter()++ % 2 == 0));
+	ob.seekable = !(spec.nonSeekable || runPipe);
 	std::ostream os(&ob);
 	NifSaveOptions o;
 	if (spec.raw) { o.optimize = false; o.sortBlocks = false; }
